@@ -698,7 +698,29 @@ class SymInt:
         return int_to_bytes_model(self, length, byteorder, signed)
 
     def bit_length(self):
-        eng().fail(Unsupported, 'bit_length of symbolic int')
+        """exact: the byte-length class of |n| is located by binary search (decisions), the eight cases inside it are a
+        disjunction (no fork); bound 1024 bits"""
+        e = eng()
+        a = z3.If(self.t >= 0, self.t, -self.t)
+        maxb = 1024
+        for w in (self.width, self.mag):
+            if w is not None and w + 1 < maxb:
+                maxb = w + 1
+        if e.decide(a >= 2 ** maxb):
+            e.fail(BoundExceeded, f'bit_length of an integer of more than {maxb} bits')
+        lo, hi = 0, (maxb + 7) // 8
+        while hi - lo > 1:
+            mid = (lo + hi) // 2
+            if e.decide(a < 256 ** mid):
+                hi = mid
+            else:
+                lo = mid
+        bl = e.fresh_int('bitlen')
+        cases = [z3.And(a >= 2 ** k, a < 2 ** (k + 1), bl == k + 1) for k in range(8 * lo, min(8 * hi, maxb))]
+        if lo == 0:
+            cases.append(z3.And(a == 0, bl == 0))
+        e.add(z3.Or(*cases))
+        return SymInt(bl, None, 11)
 
 
 class SymRatio:
